@@ -481,8 +481,21 @@ func c10FailTogether(c *Ctx) {
 				}
 			}
 		}
-		// the goroutine handed to eg.Go: on every path it waits for <-ctx.Done() and then forces the read to time out
-		for _, ci := range an.CallsIn(l) {
+		// the goroutine handed to eg.Go (in Listen or in a helper it calls): on every path it waits for
+		// <-ctx.Done() and then forces the read to time out
+		var goCalls []ssa.CallInstruction
+		seenGo := map[ssa.Instruction]bool{}
+		for _, lp := range c.pathsO("R-C10-4", l, an.PathOpts{EmitCut: true}) {
+			lp.Instrs(func(in ssa.Instruction) {
+				if ci, ok := in.(ssa.CallInstruction); ok && !seenGo[in] {
+					if fo := an.CalleeObj(ci.Common()); fo != nil && fo.Name() == "Go" && fo.Pkg() != nil && fo.Pkg().Path() == "golang.org/x/sync/errgroup" {
+						seenGo[in] = true
+						goCalls = append(goCalls, ci)
+					}
+				}
+			})
+		}
+		for _, ci := range goCalls {
 			fo := an.CalleeObj(ci.Common())
 			if fo == nil || fo.Name() != "Go" || fo.Pkg() == nil || fo.Pkg().Path() != "golang.org/x/sync/errgroup" {
 				continue
